@@ -294,6 +294,8 @@ def check_span_shapes(mm, rep):
                 cb = F.strip(clo[0]["body"])
                 while cb.get("k") == "Block" and not cb["block"]["stmts"] and cb["block"].get("expr"):
                     cb = F.strip(cb["block"]["expr"])
+                if cb.get("k") == "Tup" and cb.get("elems"):
+                    cb = F.strip(cb["elems"][0])  # `(s.offset, s.size)`: ordered by offset first
                 if cb.get("k") == "Field" and cb.get("field") == "offset":
                     by_offset = True
 
